@@ -127,7 +127,9 @@ def c03(tier):
              + mk("bus", 12 if q else 200, s + 5, "default", n_ops=2500 if q else 12000, opts=dict(weights=w, hostile_owner=0.1))
              + mk("bus", 6 if q else 100, s + 6, "tiny", n_ops=2500 if q else 12000, opts=dict(weights=w, hostile_owner=0.1))
              # "the owner's result or error payload unchanged if the owner answers before the deadline" - also when disarming the timer fails
-             + mk("deadline-cancelfault", 60 if q else 2000, s + 7, "default"))
+             + mk("deadline-cancelfault", 60 if q else 2000, s + 7, "default")
+             # "a request id unique among in-flight routed requests", "does not depend on anything a third peer does": successors of callers that left
+             + mk("deadline-successor", 40 if q else 1500, s + 8, "default", reuse=True))
     res = run_cases(cases)
     return report("C03", "exploration", res,
                   "random histories (80..300 operations, and a few of 2 500 - thorough: 12 000 - operations with many hundreds of routed requests through one daemon) of set/call from several callers to several owners with owner replies (result, error, forged id, duplicated), clock advances up "
@@ -460,6 +462,9 @@ def c05(tier):
                 cases.append(dict(kind="connend", seed=(s + rep) * 1000003 + i, config=["default", "tiny", "one", "wide"][rep % 4], params=dict(cell=i)))
     w = dict(add=12, remove=4, change=8, fetch=8, unfetch=3, get=2, route=14, reply=8, advance=2, connect=6, disconnect=14, misc=1)
     cases += mk("bus", 150 if q else 5000, s + 50, "default", n_ops=80, opts=dict(weights=w))
+    # "its own in-flight requests are dropped ... nothing is looked up through it": callers leave with requests in flight, successors
+    # of the same kind (their memory, their numbering) wait for answers while the owner answers the predecessors' requests
+    cases += mk("deadline-successor", 60 if q else 2000, s + 51, "default", reuse=True) + mk("deadline-successor", 20 if q else 800, s + 52, "default", reuse=False)
     res = run_cases(cases)
     return report("C05", "exploration", res,
                   "the product {raw, unix, WebSocket} x role {idle, owner, subscriber, caller, owner of in-flight requests, both, unsent buffered output, everything, refused requests incl. an add the path index had no room for} x "
@@ -556,7 +561,7 @@ def c09(tier):
         c["sim"] = True
     res = run_cases(cases)
     # the message-content tap of the bus workload: what the JSON layer is handed must be exactly the k-th message sent
-    res += run_cases(mk("bus", 150 if q else 4000, s + 3, "default", n_ops=60) + mk("hostile", 100 if q else 3000, s + 4, "default", n_ops=40))
+    res += run_cases(mk("bus", 150 if q else 4000, s + 3, "default", n_ops=60, opts=dict(weights=dict(readfault=3))) + mk("hostile", 100 if q else 3000, s + 4, "default", n_ops=40))
     # fidelity anchor: the simulated reference run of a script vs the same script against the real daemon on the real kernel
     real = mk("realdiff", 80 if q else 2500, s + 5, "default") + mk("realdiff", 40 if q else 1200, s + 6, "smallbuf")
     for c in real:
@@ -590,7 +595,7 @@ def _out_combos(rng, wbuf, n, dense=None):
         cap = rng.choice([-1, -1, -1, 1, 2, 3, 7, 64])
         k = rng.choice([1, 1, 2, 3, 5])
         sizes = [rng.choice([0, 1, 10, wbuf // 4, wbuf // 2, wbuf - 70, wbuf - 66, wbuf - 60, wbuf, wbuf + 5, 2 * wbuf, 3 * wbuf]) for _ in range(k)]
-        cont = rng.choice(["one", "two", "frame-1", "small", "inf", "inf", "error"] if i == n - 1 else ["one", "two", "frame-1", "small", "inf", "inf"])
+        cont = rng.choice(["one", "two", "frame-1", "small", "inf", "inf", "error", "transient"] if i == n - 1 else ["one", "two", "frame-1", "small", "inf", "inf", "transient"])
         combos.append((b0, cap, sizes, cont, rng.random() < 0.4))
     return combos
 
